@@ -8,24 +8,32 @@
      msg.msgRecv                                               -> [p_recv]
      msg.wakeup closed?                                        -> [p_closed]
      the time.After channel has fired?                         -> [p_fired]
-     where the call is (blocked in select / returned r)        -> [p_phase]
+     where the call is                                         -> [p_phase]
+        Sending   registered, inside ICMP4SendEchoRequest / ICMP6SendEchoRequest
+        Waiting   blocked in the select (the timer is armed HERE, after the send)
+        Returned r
 
-   Events (one atomic critical section or one channel operation each):
-     Begin p ok   lock; id := table.id; table.id++ (uint16 wrap); table[id] = &msg (NO collision
-                  check: an existing entry with this id is overwritten); unlock; send the echo
-                  request.  ok=false: ICMP4SendEchoRequest/ICMP6SendEchoRequest returned an error
-                  (invalid address family, Conn.WriteTo failed) and Ping returns that error.
-                  [fix24 = false] mirrors the code before the repair of DESIGN section 11 #24 (the
-                  entry is NOT removed on that path); [fix24 = true] mirrors the repaired code
-                  (lock; delete(table, id); unlock before returning the error).
+   Events, in the order the code performs them (one critical section or one channel operation
+   each; any event of any other goroutine may happen between two of them):
+     Begin p      lock; id := table.id; table.id++ (uint16 wrap); table[id] = &msg (NO collision
+                  check: an existing entry with this id is overwritten); unlock.  The waiter is in
+                  the table BEFORE the request is sent.
+     Sent p ok    the send returned.  ok=true: the call enters its select.  ok=false: the send
+                  returned an error (invalid address family, Conn.WriteTo failed); the call does
+                  lock; delete(table, id); unlock and returns the error ([fix24 = true], /repo since
+                  659869d; [fix24 = false] is the code before: the entry is not removed).
+     BulkFail n   n complete calls whose send fails, back to back (each: Begin; Sent false), without
+                  recording them as calls: delete(table, id) for the n identifiers handed out,
+                  table.id += n.  A compressed history (Proofs/PingBulk.v: same table, next-id and
+                  other calls as the n pairs of events); only for the repaired code.
      Notify i     Session.Parse reached echoNotify(i): if table[i] exists: msgRecv = true,
-                  close(wakeup), delete(table, i).
+                  close(wakeup), delete(table, i) — whatever the owner is doing (also during its send).
      Skip         Session.Parse of a frame that does not reach echoNotify (no access to the table).
      Timeout p    the timer of call p fires (real time enters the model only here).
      End p        the select of call p returns (enabled when wakeup is closed or the timer fired);
                   lock; delete(table, id); unlock; return nil if msgRecv else ErrTimeout.
-   Ghost (history) fields, never read by the transitions: [cnt] = number of Begin events so far,
-   [p_seq] = value of [cnt] when the call began.  They only serve to state the id arithmetic. *)
+   Ghost (history) fields, never read by the transitions: [cnt] = number of identifiers handed out
+   so far, [p_seq] = value of [cnt] when the call began. *)
 From PV Require Import Base.Prelude.
 Open Scope N_scope.
 
@@ -33,7 +41,7 @@ Definition id := N.
 Definition pid := nat.
 
 Inductive result : Set := RNil | RTimeout | RSendErr.
-Inductive phase : Set := Waiting | Returned (r : result).
+Inductive phase : Set := Sending | Waiting | Returned (r : result).
 
 Record ping := mkPing {
   p_id : id;
@@ -61,6 +69,11 @@ Definition tdel (t : list (id * pid)) (k : id) : list (id * pid) :=
   filter (fun e => negb (fst e =? k)) t.
 Definition tset (t : list (id * pid)) (k : id) (v : pid) : list (id * pid) := (k, v) :: tdel t k.
 
+(* k is one of the n identifiers a, a+1, ... (mod 2^16) *)
+Definition in_range (k a n : N) : bool := (k + 65536 - a) mod 65536 <? n.
+Definition tdel_range (t : list (id * pid)) (a n : N) : list (id * pid) :=
+  filter (fun e => negb (in_range (fst e) a n)) t.
+
 (* the calls, by call number *)
 Fixpoint pget (l : list (pid * ping)) (p : pid) : option ping :=
   match l with
@@ -74,7 +87,9 @@ Fixpoint pset (l : list (pid * ping)) (p : pid) (v : ping) : list (pid * ping) :
   end.
 
 Inductive event : Set :=
-| Begin (p : pid) (send_ok : bool)
+| Begin (p : pid)
+| Sent (p : pid) (ok : bool)
+| BulkFail (n : N)
 | Notify (i : id)
 | Skip
 | Timeout (p : pid)
@@ -87,20 +102,43 @@ Definition init_go : state := init 1.
 Definition set_pings (s : state) (l : list (pid * ping)) : state :=
   mkState (tbl s) (next s) l (cnt s).
 
+Definition outstanding (pg : ping) : bool :=
+  match p_phase pg with Returned _ => false | _ => true end.
+
 (* Err EOther = the event is not enabled in this state (ill-formed history);
    Panic = the Go code would panic (close of a closed channel). *)
 Definition step (fix24 : bool) (s : state) (e : event) : res state :=
   match e with
-  | Begin p ok =>
+  | Begin p =>
       match pget (pings s) p with
       | Some _ => Err EOther
       | None =>
           let i := next s in
-          let t1 := tset (tbl s) i p in
-          let t2 := if ok then t1 else if fix24 then tdel t1 i else t1 in
-          let pg := mkPing i false false false (if ok then Waiting else Returned RSendErr) (cnt s) in
-          Ok (mkState t2 (u16 (i + 1)) (pset (pings s) p pg) (cnt s + 1))
+          let pg := mkPing i false false false Sending (cnt s) in
+          Ok (mkState (tset (tbl s) i p) (u16 (i + 1)) (pset (pings s) p pg) (cnt s + 1))
       end
+  | Sent p ok =>
+      match pget (pings s) p with
+      | Some pg =>
+          match p_phase pg with
+          | Sending =>
+              if ok then
+                Ok (set_pings s (pset (pings s) p
+                      (mkPing (p_id pg) (p_recv pg) (p_closed pg) (p_fired pg) Waiting (p_seq pg))))
+              else
+                Ok (mkState (if fix24 then tdel (tbl s) (p_id pg) else tbl s) (next s)
+                      (pset (pings s) p
+                         (mkPing (p_id pg) (p_recv pg) (p_closed pg) (p_fired pg)
+                            (Returned RSendErr) (p_seq pg)))
+                      (cnt s))
+          | _ => Err EOther
+          end
+      | None => Err EOther
+      end
+  | BulkFail n =>
+      if fix24 && (n <=? 65536) then
+        Ok (mkState (tdel_range (tbl s) (next s) n) (u16 (next s + n)) (pings s) (cnt s + n))
+      else Err EOther
   | Notify i =>
       (* the early return on an empty table has no effect of its own *)
       match tget (tbl s) i with
@@ -123,7 +161,7 @@ Definition step (fix24 : bool) (s : state) (e : event) : res state :=
           match p_phase pg with
           | Waiting => Ok (set_pings s (pset (pings s) p
                          (mkPing (p_id pg) (p_recv pg) (p_closed pg) true Waiting (p_seq pg))))
-          | Returned _ => Err EOther
+          | _ => Err EOther
           end
       | None => Err EOther
       end
@@ -139,7 +177,7 @@ Definition step (fix24 : bool) (s : state) (e : event) : res state :=
                             (Returned (if p_recv pg then RNil else RTimeout)) (p_seq pg)))
                       (cnt s))
               else Err EOther
-          | Returned _ => Err EOther
+          | _ => Err EOther
           end
       | None => Err EOther
       end
@@ -163,13 +201,14 @@ Definition FIX24 : bool := true.
 (* observables *)
 Definition result_of (s : state) (p : pid) : option result :=
   match pget (pings s) p with
-  | Some pg => match p_phase pg with Returned r => Some r | Waiting => None end
+  | Some pg => match p_phase pg with Returned r => Some r | _ => None end
   | None => None
   end.
 Definition id_of (s : state) (p : pid) : option id := option_map p_id (pget (pings s) p).
+(* the call has begun and not returned (it is in its send or in its select) *)
 Definition waiting (s : state) (p : pid) : bool :=
   match pget (pings s) p with
-  | Some pg => match p_phase pg with Waiting => true | _ => false end
+  | Some pg => outstanding pg
   | None => false
   end.
 Definition size (s : state) : nat := List.length (tbl s).
